@@ -381,6 +381,7 @@ func (vc *VC) oblige(st *State, goal Term, label, kind, site string, props []str
 			Status: "unsat", Solver: "syntactic", Script: ""})
 		return
 	}
+	vc.flushAxioms()
 	assumptions := append(vc.typeFacts(), st.assume...)
 	comment := fmt.Sprintf("obligation %s/[%s] kind=%s site=%s path=%s\nclause: %s", shortFuncKey(vc.key), label, kind, site, pathString(st.path), clause)
 	sc := vc.d.script(assumptions, goal, comment)
